@@ -7,6 +7,7 @@ suite (must stay 164 passed / 3 failed) and the quick checks; any non-zero exit 
 Kept as /verif/refactors/<name>/ (patch.diff, notes.md, meta.json)."""
 import json, os, re, shutil, subprocess, sys, time
 VERIF = '/verif'
+RUN = os.environ.get('SEED_VERIF_HOME', VERIF)   # private copy of /verif to run the checks in (parallel runs)
 def sh(cmd, cwd=None, timeout=7200, env=None):
     e = dict(os.environ); e.update(env or {})
     p = subprocess.run(cmd, shell=True, cwd=cwd, stdout=subprocess.PIPE, stderr=subprocess.STDOUT, timeout=timeout, env=e)
@@ -27,18 +28,22 @@ try:
         out['apply_error'] = o[-400:]
     rc, o = sh('/venv/bin/python -m pytest -q -p no:cacheprovider --timeout=900 2>&1 | tail -3', cwd=sv, env={'PYTHONDONTWRITEBYTECODE': '1'})
     m = re.search(r'(\d+) failed, (\d+) passed', o)
+    if not (m and m.group(1) == '3' and m.group(2) == '164'):
+        # the cookie tests share ~/.dbus-keyrings and flake when several suites run at once: once more
+        rc, o = sh('/venv/bin/python -m pytest -q -p no:cacheprovider --timeout=900 2>&1 | tail -3', cwd=sv, env={'PYTHONDONTWRITEBYTECODE': '1'})
+        m = re.search(r'(\d+) failed, (\d+) passed', o)
     out['tests'] = m.group(0) if m else o[-200:]
     out['checks'] = {}
     if out['patch_applies']:
         for p in props:
             t0 = time.time()
-            rc, o = sh('./check %s --tier quick' % p, cwd=VERIF, env={'VERIF_REPO': sv})
+            rc, o = sh('./check %s --tier quick' % p, cwd=RUN, env={'VERIF_REPO': sv})
             out['checks'][p] = {'exit': rc, 'summary': o.strip().split('\n')[-1][:300], 'wall_s': round(time.time() - t0, 1),
                                 'violations': re.findall(r'^VIOLATION .*$', o, re.M)[:3], 'detail': o[-1500:] if rc else ''}
     out['false_alarms'] = [p for p, c in out['checks'].items() if c['exit'] != 0]
 finally:
     sh('git -C /repo worktree remove --force %s' % sv)
-    sh('/venv/bin/python %s/tools/gen_tables.py /repo %s/coq/Gen/Generated.v' % (VERIF, VERIF))
+    sh('/venv/bin/python %s/tools/gen_tables.py /repo %s/coq/Gen/Generated.v' % (RUN, RUN))
 print(json.dumps(out, indent=1))
 if out.get('patch_applies'):
     dst = os.path.join(VERIF, 'refactors', name)
